@@ -189,7 +189,17 @@ class IdentityLinearOperator(ConstantDiagLinearOperator):
         if inv_quad_rhs is None:
             inv_quad_term = torch.empty(0, dtype=self.dtype, device=self.device)
         else:
-            _matmul_broadcast_shape(self.shape, inv_quad_rhs.shape)
+            result_shape = _matmul_broadcast_shape(self.shape, inv_quad_rhs.shape)
+            # same contract as LinearOperator.inv_quad_logdet: with another number of dimensions the
+            # reduction below would run over the wrong axis
+            if not (self.dim() == 2 and inv_quad_rhs.dim() == 1) and self.dim() != inv_quad_rhs.dim():
+                raise RuntimeError(
+                    "LinearOperator (size={}) and right-hand-side Tensor (size={}) should have the same number "
+                    "of dimensions.".format(self.shape, inv_quad_rhs.shape)
+                )
+            if inv_quad_rhs.dim() > 1:
+                # the result carries the broadcast batch shape (a size-1 batch dimension of the rhs is expanded)
+                inv_quad_rhs = inv_quad_rhs.expand(*result_shape[:-2], *inv_quad_rhs.shape[-2:])
             rhs_batch_shape = inv_quad_rhs.shape[1 + self.batch_dim :]
             inv_quad_term = inv_quad_rhs.mul(inv_quad_rhs).sum(-(1 + len(rhs_batch_shape)))
             if reduce_inv_quad:
